@@ -121,7 +121,8 @@ class HandlerCheck:
     def add_trace(self, kind, ops, obs, label="", oracle=None, describe=None):
         """Register an implementation trace; run the oracle on it; remember it for the correspondence."""
         self.n_cases += 1
-        if not any(o[:2] == [6, 2] for o in ops):      # creation-rejecting filestore: not expressible in the model
+        # not expressible in the model: a creation-rejecting filestore; files beyond 4 GiB (the model zero-fills gaps in a list)
+        if not any(o[:2] == [6, 2] or (o[0] == 0 and len(o) > 5 and o[5] == 1) for o in ops):
             self.sides.append((kind, ops, obs, label))
         tr = None
         if oracle is not None:
